@@ -19,6 +19,7 @@ def run(ctx):
     summ, vec, base = pscommon.run_mbt(ctx, "MC_PSOps", {"Tier": '"%s"' % ctx.tier, "OpSet": '"hostile"'},
                                        "pshostile", replay_args=("-crash-only",))
     pscommon.absorb(ctx, summ, "vh replay-ps -crash-only (MC_PSOps hostile)", "PSMachine total: every operator returns")
+    pscommon.crash_control(ctx, vec, base)
     ctx.extra["hostile_operator_vectors"] = summ["vectors"]
     ctx.extra["operators"] = len(summ["per_op"])
     # (b)
